@@ -38,8 +38,8 @@ func (r *Rng) Intn(n int) int {
 	}
 	return int(r.Next() % uint64(n))
 }
-func (r *Rng) Bool() bool         { return r.Next()&1 == 1 }
-func (r *Rng) Chance(p int) bool  { return r.Intn(100) < p }
+func (r *Rng) Bool() bool             { return r.Next()&1 == 1 }
+func (r *Rng) Chance(p int) bool      { return r.Intn(100) < p }
 func (r *Rng) Pick(l []string) string { return l[r.Intn(len(l))] }
 
 // ---------- model driver client ----------
@@ -120,9 +120,9 @@ func itoa(i int) string { return strconv.Itoa(i) }
 // ---------- result collection ----------
 
 type Mismatch struct {
-	Kind   string `json:"kind"`   // "differential" | "oracle"
-	What   string `json:"what"`   // which correspondence / oracle
-	Input  string `json:"input"`  // protocol line or description
+	Kind   string `json:"kind"`  // "differential" | "oracle"
+	What   string `json:"what"`  // which correspondence / oracle
+	Input  string `json:"input"` // protocol line or description
 	Impl   string `json:"impl"`
 	Model  string `json:"model"`
 	Oracle string `json:"oracle,omitempty"` // "violates" | "holds" | ""
@@ -131,22 +131,22 @@ type Mismatch struct {
 }
 
 type Result struct {
-	Property    string            `json:"property"`
-	Tier        string            `json:"tier"`
-	Seed        uint64            `json:"seed"`
-	Evaluations int               `json:"evaluations"`
-	Distinct    map[string]bool   `json:"-"`
-	DistinctN   int               `json:"distinct_nontrivial"`
-	Rule        string            `json:"rule"`
-	Samples     []string          `json:"samples"`
-	Dist        map[string]int    `json:"input_distribution"`
-	Mismatches  []Mismatch        `json:"mismatches"`
-	Known       []string          `json:"known_findings_seen"`
-	Notes       []string          `json:"notes"`
-	Traces      int               `json:"traces_validated_against_impl"`
-	Exhaustive  bool              `json:"exhaustive"`
-	Extra       map[string]any    `json:"extra,omitempty"`
-	WallS       float64           `json:"wall_s"`
+	Property    string          `json:"property"`
+	Tier        string          `json:"tier"`
+	Seed        uint64          `json:"seed"`
+	Evaluations int             `json:"evaluations"`
+	Distinct    map[string]bool `json:"-"`
+	DistinctN   int             `json:"distinct_nontrivial"`
+	Rule        string          `json:"rule"`
+	Samples     []string        `json:"samples"`
+	Dist        map[string]int  `json:"input_distribution"`
+	Mismatches  []Mismatch      `json:"mismatches"`
+	Known       []string        `json:"known_findings_seen"`
+	Notes       []string        `json:"notes"`
+	Traces      int             `json:"traces_validated_against_impl"`
+	Exhaustive  bool            `json:"exhaustive"`
+	Extra       map[string]any  `json:"extra,omitempty"`
+	WallS       float64         `json:"wall_s"`
 	start       time.Time
 }
 
